@@ -103,6 +103,9 @@ type Engine struct {
 	MaxDepth  int
 	// FailReads explores the failure outcome of stream reads too.
 	FailReads bool
+	// GenericLoops summarises counting loops by one generic iteration even
+	// when their bounds are constants (used for the table builders).
+	GenericLoops bool
 
 	steps     int
 	paths     int
@@ -303,6 +306,13 @@ func (e *Engine) cellVal(st *State, c *Cell) Val {
 
 func selectPath(v Val, path []int) (Val, bool) {
 	for _, i := range path {
+		if t, ok := v.(Tuple); ok {
+			if i < 0 || i >= len(t) {
+				return nil, false
+			}
+			v = t[i]
+			continue
+		}
 		a, ok := v.(*Agg)
 		if !ok || i < 0 || i >= len(a.Elems) {
 			return nil, false
@@ -531,6 +541,12 @@ func (e *Engine) exec(st *State, fr *frame, b, pred *ssa.BasicBlock, idx, depth 
 					return e.stuck(st, "non-boolean condition", in.Pos())
 				}
 				if c.Const != nil {
+					if e.GenericLoops && isLoopHeader(b) && fr.stopAt != b {
+						if outs, ok := e.summariseLoop(st, fr, b, in, c, depth); ok {
+							return outs
+						}
+						return e.stuck(st, "counting loop is not of the form `for i := a; i < N; i++ { table[i] = f(i) }`", e.condPos(in))
+					}
 					if *c.Const {
 						next = b.Succs[0]
 					} else {
